@@ -477,7 +477,7 @@ fn juxtaposed(phrase: &str) -> CaseReport {
 }
 
 pub fn run_check(ctx: &Ctx) {
-    ctx.set_rule("expressions mixing literals, quantities and typable fact phrases with + - * /, parentheses and `to` (also 2-3 parenthesised expressions in one query; facts inside exponents and function arguments; a number written directly in front of every phrase): results with and without descriptions are equal, no description is recorded when disabled, descriptions are exactly the phrases used (multiset, grouped per result; a sub-multiset when a result is an error), each paired with the constant the phrase returns when asked alone, and the value equals the reference evaluation with phrases replaced by those constants; a failing expression among successful ones takes no description away from them; histories: shuffled lists of such queries (plus clusters of phrases sharing a long prefix, and of phrases differing only in letter case or in the case of an inserted and/or/not) against one database instance give each query the result it has on a fresh instance; non-trivial = >=2 phrases or a history with a repeated query; distinct by query text");
+    ctx.set_rule("expressions mixing literals, quantities and typable fact phrases with + - * /, parentheses and `to` (also 2-3 parenthesised expressions in one query; facts inside exponents and function arguments; a number written directly in front of every phrase): results with and without descriptions are equal, no description is recorded when disabled, descriptions are exactly the phrases used (multiset, grouped per result; a sub-multiset when a result is an error), each paired with the constant the phrase returns when asked alone, and the value equals the reference evaluation with phrases replaced by those constants; a failing expression among successful ones takes no description away from them; histories: shuffled lists of such queries (plus clusters of phrases sharing a long prefix, and of phrases differing only in letter case or in the case of an inserted and/or/not) against one database instance give each query the result it has on a fresh instance; histories of bare lookups in which a found phrase is followed by the same rejected or not-found phrase two or three times (as separate queries and as results of one query); non-trivial = >=2 phrases or a history with a repeated query; distinct by query text");
     let corpus: Vec<(String, DCase)> = load_corpus("C18");
     let cases: Vec<DCase> = corpus.into_iter().map(|c| c.1).collect();
     ctx.run_list("corpus", &cases, |c| check_on(shared_db(), c), |c| to_json(c));
@@ -586,6 +586,42 @@ pub fn run_check(ctx: &Ctx) {
                         Err(p) => CaseReport::fail(format!("history {}", hid), "panic", json!({"history": hist, "panic": p})),
                     };
                     ctx.record_case("histories", rep, json!({"history": hist}));
+                    // a second history of bare lookups: phrases that are found, phrases the search engine rejects
+                    // (a dangling AND / OR / NOT), phrases that find nothing — each repeated two or three times in a
+                    // row right after another kind, as separate queries and as several results of one query
+                    let p = pool();
+                    let found = |k: usize| p.all[k % p.all.len()].0.clone();
+                    let mut raw: Vec<String> = Vec::new();
+                    for _ in 0..(3 + next() % 5) {
+                        let base = found(next());
+                        let word = base.split(' ').next().unwrap_or("mass").to_string();
+                        let bad = match next() % 6 {
+                            0 => format!("{} OR", word),
+                            1 => format!("NOT {}", word),
+                            2 => "AND".to_string(),
+                            3 => format!("{} AND", base),
+                            4 => "zzzzqq xqxqx".to_string(),
+                            _ => format!("OR {}", word),
+                        };
+                        let reps = 2 + next() % 2;
+                        if next() % 2 == 0 {
+                            raw.push(base.clone());
+                            for _ in 0..reps {
+                                raw.push(bad.clone());
+                            }
+                        } else {
+                            raw.push(format!("({}) {}", base, vec![format!("({})", bad); reps].join(" ")));
+                        }
+                        if next() % 3 == 0 {
+                            raw.push(found(next()));
+                        }
+                    }
+                    let rep = guarded(&format!("raw history {}", hid), || raw_history(&raw));
+                    let rep = match rep {
+                        Ok(r) => r,
+                        Err(p) => CaseReport::fail(format!("raw history {}", hid), "panic", json!({"history": raw, "panic": p})),
+                    };
+                    ctx.record_case("histories-of-bare-lookups", rep, json!({"history": raw}));
                 }
             });
         }
@@ -627,6 +663,26 @@ fn history(qs: &[&DCase]) -> CaseReport {
         }
     }
     CaseReport::pass(key, true, vec!["history"])
+}
+
+/// A history of bare query strings on one database: every query must give what it gives on the long-lived shared
+/// instance and on a second instance that sees the history in reverse order; with descriptions on and off.
+fn raw_history(qs: &[String]) -> CaseReport {
+    let key = qs.join(" ;; ");
+    let (db1, db2) = match (Db::in_memory(), Db::in_memory()) {
+        (Ok(a), Ok(b)) => (a, b),
+        _ => return CaseReport::fail(key, "db-build-failed", json!({})),
+    };
+    let shared = shared_db();
+    let a: Vec<Vec<R>> = qs.iter().enumerate().map(|(i, q)| run_full(&db1, q, i % 2 == 0).map(|r| r.results).unwrap_or_default()).collect();
+    for (i, q) in qs.iter().enumerate().rev() {
+        let b = run_full(&db2, q, i % 2 == 1).map(|r| r.results).unwrap_or_default();
+        let c = run_full(shared, q, false).map(|r| r.results).unwrap_or_default();
+        if !same_results(&a[i], &b) || !same_results(&a[i], &c) {
+            return CaseReport::fail(key, "history-changes-a-result", json!({"query": q, "position": i, "in_order": results_json(&a[i]), "reversed_order_fresh_db": results_json(&b), "shared_db": results_json(&c), "history": qs}));
+        }
+    }
+    CaseReport::pass(key, true, vec!["history-of-bare-lookups"])
 }
 
 pub fn replay(ctx: &Ctx, case: &Value) {
